@@ -14,7 +14,7 @@ namespace BB
 /-- the configurations under which an operation inserts -/
 def visited (e : Est) : Op → List Cfg
   | .fit _ _ => [e.cfg]
-  | .refine _ _ _ => [e.cfg]
+  | .refine _ _ _ _ => [e.cfg]
   | .recluster it extra _ _ => (List.range it).map (fun j => { e.cfg with thr := advThr extra (j + 1) e.cfg.thr })
   | _ => []
 
@@ -62,7 +62,7 @@ theorem runOK_thr (X : ExpTab) (F : Nat) (G : Cfg → Prop) : ∀ (ops : List Op
     | fit rows labels =>
       exact ⟨hop.1, hop.2, fun _ _ _ _ => ⟨le_refl 1, fun h => by simp [Clu.ofRow] at h⟩,
         mergeClosed_thr X G _ (hv _ (by simp [visited]))⟩
-    | refine n data im =>
+    | refine n data im srt =>
       exact ⟨hop, fun _ _ _ _ => ⟨le_refl 1, fun h => by simp [single, Clu.ofBuffer] at h⟩,
         mergeClosed_thr X G _ (hv _ (by simp [visited]))⟩
     | recluster it extra perms stop =>
@@ -110,7 +110,7 @@ theorem C03_never (X : ExpTab) (cfg : Cfg) (hbf : 2 ≤ cfg.bf) (F : Nat) (ops :
       have hv : ∀ cfg' ∈ visited e op, cfg'.merge.crit = .never := fun c hc => hG c (List.mem_append_left _ hc)
       cases op with
       | fit rows labels => exact ⟨hop.1, hop.2, fun _ _ _ _ => rfl, hmc _ (hv _ (by simp [visited]))⟩
-      | refine n data im => exact ⟨hop, fun _ _ _ _ => rfl, hmc _ (hv _ (by simp [visited]))⟩
+      | refine n data im srt => exact ⟨hop, fun _ _ _ _ => rfl, hmc _ (hv _ (by simp [visited]))⟩
       | recluster it extra perms stop =>
         intro j hj1 hjk
         apply hmc _ (hv _ _)
